@@ -89,7 +89,7 @@ type c02Req struct {
 }
 
 func c02Requests(hA, hB string) (qs []c02Req) {
-	for _, h := range []string{"example.org", "sub.example.org", hA, hB, "EXAMPLE.ORG", "", "ads.пример.рф", "Tracker.Example.ORG", "cafe.de"} {
+	for _, h := range []string{"example.org", "sub.example.org", hA, hB, "EXAMPLE.ORG", "", "ads.пример.рф", "Tracker.Example.ORG", "cafe.de", "example.example.org"} {
 		for _, t := range []uint16{1, 28, 16} {
 			for ci, cl := range []struct{ name, ip string }{{"", ""}, {"laptop", ""}, {"", "10.0.0.1"}, {"", "fd00::17"}, {"", "::1"}} {
 				for ti, tags := range [][]string{nil, {"pc"}} {
@@ -266,6 +266,11 @@ func (m *c02Model) run(hist []int) statespace.Outcome {
 		got := fmt.Sprintf("matched=%v class=%s rules=%v v4=%v v6=%v", matched, c06ClassNames[gotClass], sortedSet(netTexts(res.NetworkRules)), sortedSet(gotV4), sortedSet(gotV6))
 		want := fmt.Sprintf("matched=%v class=%s rules=%v v4=%v v6=%v", wantMatched, c06ClassNames[wantClass], sortedSet(wantNR), sortedSet(wantV4), sortedSet(wantV6))
 		obs.WriteString(strconv.Itoa(gotClass))
+		if dup := moreOftenThan(netTexts(res.NetworkRules), wantNR); dup != "" && !reported {
+			reported = true
+			violate("dns-answer-equals-reference", map[string]any{"lines": sortedSet(texts), "request": q.desc, "duplicate": dup},
+				fmt.Sprintf("list %q, request %s: NetworkRules %v holds %q more often than the list does", texts, q.desc, netTexts(res.NetworkRules), dup))
+		}
 		if (got != want || c06Special(res.NetworkRule) != "") && !reported {
 			reported = true
 			violate("dns-answer-equals-reference", map[string]any{"lines": sortedSet(texts), "request": q.desc},
